@@ -439,6 +439,10 @@ class _NewWallet:
             yield "ensures.nothing_drawn", not [e for e in c.effects if e[0] == "draw"]
             return
         bits = I.bits
+        if hasattr(I, "urandom_calls") and out.raised:
+            # concrete run under a chosen-output PRF: an invalid master key is reported (C18), nothing to check here
+            yield "raises.is_invalid_key_error", out.exc_cls.__name__ == "InvalidKeyError"
+            return
         if out.returned and isinstance(c.deref(out.value).fields.get("mnemonic"), str):
             from spec import bip39 as SB
             m = c.deref(out.value).fields.get("mnemonic")
